@@ -58,6 +58,10 @@ def classify_value(R, module, v):
         if nm in ("logging.getLogger",):
             return "logger", "logger (thread-safe by the standard library)"
         if last == "ContextVar":
+            dflt = [k.value for k in v.keywords if k.arg == "default"]
+            if dflt and classify_value(R, module, dflt[0])[0] not in ("immutable", "function", "alias"):
+                # the default object is handed to every context (and every thread) that never called set()
+                return "mutable", "ContextVar whose default is a mutable object (%s): the one default object is shared by all threads" % q.src(dflt[0])[:30]
             return "contextvar", "context-local variable"
         if nm in ("tuple", "frozenset") and not v.args:
             return "immutable", "empty %s" % nm
